@@ -7,11 +7,12 @@ import subprocess
 import sys
 
 VERIF = os.path.dirname(os.path.dirname(os.path.abspath(__file__)))
+REPO = os.environ.get("VERIF_REPO", "/repo")  # the tree the change is applied to (default: /repo itself)
 GROUPS = {"G1": ["C06", "C07", "C08", "C13"], "G2": ["C10", "C11", "C20", "C21"], "G3": ["C14", "C15", "C16", "C27"], "G4": ["C22", "C23", "C24", "C17"], "G5": ["C02", "C03", "C05", "C25"], "G6": ["C04", "C12", "C18", "C19", "C26"]}
 EXTRA = ["C01", "C09"]  # cross-cutting checks run for every control
 
 
-def sh(cmd, cwd="/repo", env=None, timeout=1800):
+def sh(cmd, cwd=REPO, env=None, timeout=1800):
     e = dict(os.environ)
     e.update(env or {})
     p = subprocess.run(cmd, shell=True, cwd=cwd, capture_output=True, text=True, env=e, timeout=timeout)
@@ -36,11 +37,11 @@ def main():
                 continue
             sh(f"git apply {d}/patch.diff")
             try:
-                sh("rm -rf /repo/.hypothesis")
+                sh(f"rm -rf {REPO}/.hypothesis")
                 _rc, tout = sh("/venv/bin/python -m pytest -q -p no:cacheprovider --continue-on-collection-errors 2>&1 | tail -1")
                 res = []
                 for p in GROUPS[g] + EXTRA:
-                    rc, out = sh(f"./check {p}", cwd=VERIF, env={"VERIF_NO_EVIDENCE": "1"})
+                    rc, out = sh(f"./check {p}", cwd=VERIF, env={"VERIF_NO_EVIDENCE": "1", "VERIF_REPO": REPO})
                     bad = [l[:230] for l in out.splitlines() if l.startswith(("VIOLATION", "CHECKER-ERROR"))]
                     res.append((p, rc, bad))
             finally:
